@@ -37,7 +37,8 @@ META = dict(
         'series per length (one equal to a treatment series: degenerate '
         'perfect fit) + cleared control; 17 operations (4 set-control, 3 '
         'set-treatment, 10 reads incl. tbrfit and estimate_required_impact); inductive step over all 2^7 '
-        'slot fillings; all histories of length <= 3',
+        'slot fillings; all histories of length <= 3 from a fresh object and '
+        'from an object that already holds any control series',
         thorough='histories of length 4; a second parameter object'),
     outside='series are a listed pool, not symbolic (symbolic series through '
     'the diagnostics\' tests stall nlsat: measured); histories longer than '
@@ -181,7 +182,8 @@ def step_job(name, twin=False, par_i=0, max_s=800, y_fixed=None, x_fixed=None):
   return js.finish(e, status, trace)
 
 
-def history_job(name, length, first=None, twin=False, par_i=0, max_s=800):
+def history_job(name, length, first=None, twin=False, par_i=0, max_s=800,
+                preset_x=False):
   st = State(par_i)
   js = framework.JobStats(name)
   trace = symx.FunctionTrace(framework.REPO)
@@ -189,8 +191,8 @@ def history_job(name, length, first=None, twin=False, par_i=0, max_s=800):
 
   def fn():
     yi = symx.choose('y', 0, 2)
-    d = st.fresh(yi, None)
-    xi = None
+    xi = symx.choose('x0', 0, 2) if preset_x else None
+    d = st.fresh(yi, xi)
     ops = []
     bad = []
     for i in range(length):
@@ -202,7 +204,7 @@ def history_job(name, length, first=None, twin=False, par_i=0, max_s=800):
         b = _compare_all(st, d, yi, xi, only=rd)
         bad += ['step %d read %s' % (i, x) for x in b]
     bad += ['final read %s' % x for x in _compare_all(st, d, yi, xi)]
-    return dict(y0=ops and None, ops=ops, y=None), bad, ops
+    return dict(y0=ops and None, ops=ops, y=None, x0=None), bad, ops
 
   def fn2():
     y0 = None
@@ -214,7 +216,9 @@ def history_job(name, length, first=None, twin=False, par_i=0, max_s=800):
       info, bad, ops = res[1]
       w = eng_.witness()
       y0 = int(symx.model_value(w, z3.Int('y'))) if w is not None else 0
-      res = ('ok', (dict(y0=y0, ops=ops), bad))
+      x0 = int(symx.model_value(w, z3.Int('x0'))) if (
+          w is not None and preset_x) else None
+      res = ('ok', (dict(y0=y0, ops=ops, x0=x0), bad))
     _record(js, res, twin, 'history')
 
   trace.start()
@@ -261,6 +265,11 @@ def jobs(tier, seed):
     name = 'histories-len3-first=%s' % _opname(f)
     out.append(dict(func='history_job', name=name, kwargs=dict(
         name=name, length=3, first=f)))
+  # histories from an object that already holds a control series
+  for f in range(N_OPS):
+    name = 'histories-len3-x-preset-first=%s' % _opname(f)
+    out.append(dict(func='history_job', name=name, kwargs=dict(
+        name=name, length=3, first=f, preset_x=True)))
   if tier == 'thorough':
     out.append(dict(func='step_job', name='inductive-step-par2', weight=50,
                     kwargs=dict(name='inductive-step-par2', par_i=1)))
@@ -288,8 +297,8 @@ def replay(case):
         _opname(case['op'])]
   else:
     yi = case['y0']
-    d = st.fresh(yi, None)
-    xi = None
+    xi = case.get('x0')
+    d = st.fresh(yi, xi)
     bad = []
     for op in case['ops']:
       yi, xi, rd = _apply(st, d, yi, xi, op)
